@@ -472,6 +472,10 @@ def truth(v, facts):
         if op in _NEG:
             r = truth(F.fn("cmp:" + _NEG[op], a[0], a[1]), facts)
             return None if r is None else (not r)
+        if op in ("Eq", "Is"):
+            pa, pb = str_parts(a[0]), str_parts(a[1])
+            if pa is not None and pb is not None and len(pa) == len(pb) == 1 and isinstance(pa[0], str) and isinstance(pb[0], str):
+                return pa[0] == pb[0]                    # two string literals
         if op in _CMP:
             try:
                 d = a[0] - a[1]
@@ -485,6 +489,13 @@ def truth(v, facts):
             return None
         if op in ("Eq", "Is") and facts is not None:
             return facts.lookup(F.fn(nm, a[1], a[0]))
+        if op == "In":
+            t = app(a[1], "tuple")
+            if t is not None and not any(isinstance(x, str) for x in t[1]):
+                rs = [truth(F.fn("cmp:Eq", a[0], x), facts) for x in t[1]]
+                if any(r is True for r in rs):
+                    return True
+                return False if all(r is False for r in rs) else None
     return None
 
 
@@ -653,6 +664,7 @@ class XEval(AutoEvaluator):
         self.locals_ = set()
         self.globals_ = None
         self.home = home if home is not None else getattr(fn, "_vmod", None)      # module of the function the rule evaluates
+        self.imported = set()        # names bound by import statements inside the function
         self.lists = {}              # name -> (loop depth, path length) where the list under construction was created
         self.closures = set()        # ids of FunctionDefs met inside the evaluated body (nested helpers, named lambdas)
         if fn is not None:
@@ -721,6 +733,8 @@ class XEval(AutoEvaluator):
             if len(arrs) == 1 and len(arrs[0]) == 1 and arrs[0][0][1] == 1 and len(x.n.t) == 2 and sym_of(F.Rat(F.Poly.atom(arrs[0][0][0]))) is None:
                 return self.mk_len(F.Rat(F.Poly.atom(arrs[0][0][0])))       # a * X + b has the length of X
         u = app(x)
+        if u is not None and u[0] == "zip" and u[1] and not any(isinstance(a, str) for a in u[1]):
+            return self._zip_len([untuple(a) for a in u[1]])
         if u is not None and u[0] in ("zip", "enumerate") and u[1] and not isinstance(u[1][0], str):
             return self.mk_len(untuple(u[1][0]))        # element-wise constructs have the length of what they run over
         if u is not None and u[0] == "range" and not any(isinstance(a, str) for a in u[1]):
@@ -729,6 +743,22 @@ class XEval(AutoEvaluator):
             if len(u[1]) == 2:
                 return u[1][1] - u[1][0]
         return F.fn("len", need(x))
+
+    def _zip_len(self, vs):
+        """zip stops at its shortest argument: zip(b, b[1:]) has len(b) - 1 elements"""
+        lens = [self.mk_len(v) for v in vs]
+        best = lens[0]
+        for ln in lens[1:]:
+            try:
+                c = const_of(ln - best)
+            except Unsupported:
+                c = None
+            if c is not None and c < 0:
+                best = ln
+        return best
+
+    RAINFLOW = ("call:cyclecount.rainflow", "call:rainflow")
+    CYCLE_COLUMNS = ("amp", "mean", "count")          # documented column order of the cycle table (rainflow's docstring; binify reads [:, 0..2])
 
     def _scalar_index(self, ix):
         """an index that selects one element (a loop symbol, an integer, or a sum of those)"""
@@ -751,6 +781,26 @@ class XEval(AutoEvaluator):
             return F.fn("idx", wrap(base), wrap(ix))
         ix = self._from_end(base, norm_index(wrap(ix)))
         u = app(base)
+        if u is not None and u[0] in self.RAINFLOW:
+            # a column of the cycle table by position or by name: T[:, 0] (ndarray form), T.iloc[:, 0], T["amp"], T.loc[:, "amp"]
+            t = app(ix, "tuple")
+            if t is not None and len(t[1]) == 2 and _full_slice(t[1][0]) and not isinstance(t[1][1], str):
+                c = const_of(t[1][1])
+                if c is not None and c.denominator == 1 and 0 <= c < 3:
+                    return F.fn("idx", base, F.sym(repr(self.CYCLE_COLUMNS[int(c)])))
+                sp = str_parts(t[1][1])
+                if sp is not None and len(sp) == 1 and sp[0] in self.CYCLE_COLUMNS:
+                    return F.fn("idx", base, t[1][1])
+        if u is not None and u[0] == "dict" and not isinstance(ix, (str, tuple)):
+            ks, vs = u[1][0::2], u[1][1::2]
+            hit = [v for k, v in zip(ks, vs) if not isinstance(k, str) and same(k, ix)]
+            if len(hit) == 1 and not isinstance(hit[0], str):
+                return untuple(hit[0])                      # TABLE[key] of a literal table
+        sp = str_parts(base) if not isinstance(base, (tuple, str)) else None
+        if sp is not None and len(sp) == 1 and isinstance(sp[0], str):
+            c = const_of(ix)
+            if c is not None and c.denominator == 1 and -len(sp[0]) <= c < len(sp[0]):
+                return F.sym(repr(sp[0][int(c)]))            # a character of a string literal
         if u is not None and u[0] == "zip" and not any(isinstance(a, str) for a in u[1]) and self._scalar_index(ix):
             return tuple(self.mk_idx(untuple(a), ix) for a in u[1])          # element k of zip(a, b) is (a[k], b[k])
         if u is not None and u[0] == "enumerate" and len(u[1]) == 1 and not isinstance(u[1][0], str) and self._scalar_index(ix):
@@ -873,7 +923,7 @@ class XEval(AutoEvaluator):
             return F.fn('mask:BitXor', need(x), need(y))
         if isinstance(node, ast.Name):
             if node.id not in self.env and self.fn is not None and isinstance(node.ctx, ast.Load):
-                if node.id in self.locals_ or (self.globals_ is not None and node.id not in self.globals_):
+                if (node.id in self.locals_ or (self.globals_ is not None and node.id not in self.globals_)) and node.id not in self.imported:
                     self.tr.unbound.append((node.id, node, tuple(self.path)))
             if node.id in self.buffers:
                 return self.env[node.id] if node.id in self.env else F.sym(node.id)
@@ -910,8 +960,6 @@ class XEval(AutoEvaluator):
             return self._comp(node)
         if isinstance(node, (ast.List, ast.Tuple)) and len(node.elts) == 1 and isinstance(node.elts[0], ast.Starred):
             return self._ev(node.elts[0].value)                      # [*xs]: the elements of xs
-        if isinstance(node, (ast.List, ast.Tuple)) and len(node.elts) >= 2 and any(self._is_alloc(e) for e in node.elts):
-            return tuple(self._fresh_array(e) if self._is_alloc(e) else self.ev(e) for e in node.elts)      # (np.zeros(n), np.zeros(n)): two arrays
         if isinstance(node, ast.Lambda) and not node.args.vararg and not node.args.kwarg and not node.args.kwonlyargs:
             return F.sym(self._lambda(node, None))
         if isinstance(node, ast.DictComp):
@@ -934,11 +982,32 @@ class XEval(AutoEvaluator):
                         return Unknown("f-string part")
                     sp = str_parts(v)
                     spec = ast.unparse(x.format_spec) if x.format_spec is not None else ""
+                    if sp is None and not spec and x.conversion in (-1, 115) and const_of(v) is not None and const_of(v).denominator == 1 \
+                            and isinstance(x.value, (ast.Name, ast.Constant)) and not (isinstance(x.value, ast.Constant) and isinstance(x.value.value, float)):
+                        sp = [str(int(const_of(v)))]          # f"b={b}" with b an integer constant
                     if sp is not None and not spec and x.conversion in (-1, 115):
                         parts += sp
                     else:
                         parts.append(F.fn("fmt", need(v), spec if spec else "", "" if x.conversion in (-1, 115) else str(x.conversion)))
             return mk_str(parts)
+        if isinstance(node, ast.BinOp) and isinstance(node.op, (ast.FloorDiv, ast.Mod)):
+            a, b = self._ev(node.left), self._ev(node.right)
+            ca, cb = const_of(a), const_of(b)
+            if ca is not None and cb is not None and ca.denominator == 1 and cb.denominator == 1 and cb != 0:
+                return F.const(int(ca) // int(cb) if isinstance(node.op, ast.FloorDiv) else int(ca) % int(cb))      # 12 // 2
+        if isinstance(node, ast.BinOp) and isinstance(node.op, ast.Mod):
+            a = self._ev(node.left)
+            pa = str_parts(a)
+            if pa is not None and len(pa) == 1 and isinstance(pa[0], str):
+                import re as _re
+                specs = list(_re.finditer(r"%(?:[-+ #0]*\d*(?:\.\d+)?[diouxXeEfFgGrsa]|%)", pa[0]))
+                real = [m for m in specs if m.group() != "%%"]
+                b = self._ev(node.right)
+                if len(real) == 1 and not isinstance(b, tuple) and not is_unknown(b):
+                    m = real[0]
+                    pre, post = pa[0][:m.start()].replace("%%", "%"), pa[0][m.end():].replace("%%", "%")
+                    return mk_str([pre, F.fn("fmt", need(b), m.group(), ""), post])      # "{:.%df}" % precision
+                return Unknown("% formatting")
         if isinstance(node, ast.BinOp) and isinstance(node.op, ast.Add):
             a, b = self._ev(node.left), self._ev(node.right)
             pa, pb = str_parts(a), str_parts(b)
@@ -955,11 +1024,28 @@ class XEval(AutoEvaluator):
             return need(a) + need(b)
         if isinstance(node, ast.Attribute) and node.attr == "T":
             return self._ev(node.value)
+        if isinstance(node, ast.Attribute) and node.attr == "values":
+            return self._ev(node.value)                  # the array behind a Series / DataFrame
+        if isinstance(node, ast.Attribute) and node.attr in self.CYCLE_COLUMNS and isinstance(node.value, ast.Name) and node.value.id in self.env:
+            b = self._ev(node.value)
+            if head(b) in self.RAINFLOW:
+                return F.fn("idx", need(b), F.sym(repr(node.attr)))          # T.amp is T["amp"]
+        if isinstance(node, ast.Attribute) and node.attr == "shape" and isinstance(node.value, ast.Name) and node.value.id in self.buffers:
+            al = self.tr.allocs.get(sym_of(self.env.get(node.value.id)) or "")
+            if al is not None and al[0] in ("np.zeros", "np.empty", "np.ones", "np.full"):
+                shp = al[1][0] if al[1] else al[2].get("shape")
+                if isinstance(shp, tuple) and not any(is_unknown(x) for x in shp):
+                    return shp                           # the shape the array was allocated with
         if isinstance(node, ast.Attribute) and node.attr in ("shape", "size", "ndim") and not isinstance(node.value, ast.Name):
             v = self._ev(node.value)
             if is_unknown(v):
                 return v
             return F.fn("attr:" + node.attr, wrap(v))
+        if isinstance(node, ast.Subscript) and dotted(node.value) in ("np.r_", "np.c_", "numpy.r_", "numpy.c_"):
+            parts = [self._ev(e) for e in (node.slice.elts if isinstance(node.slice, ast.Tuple) else [node.slice])]
+            if any(is_unknown(x) or isinstance(x, tuple) for x in parts):
+                return next((x for x in parts if is_unknown(x)), Unknown("np.r_ of a tuple"))
+            return F.fn("hcat", *[need(x) for x in parts])               # np.r_[a, b] / np.c_[A, b]: pieces side by side
         if isinstance(node, ast.Subscript):
             base = self._ev(node.value)
             if is_unknown(base):
@@ -972,6 +1058,12 @@ class XEval(AutoEvaluator):
                 ix = self._index_value(node.slice)
             except Unsupported as e:
                 return Unknown(str(e))
+            lu = app(base)
+            if lu is not None and lu[0] in ("attr:loc", "attr:iloc") and len(lu[1]) == 1 and not isinstance(lu[1][0], str):
+                t = app(ix, "tuple")
+                if t is not None and len(t[1]) == 2 and _full_slice(t[1][0]):
+                    # X.loc[:, c] is the column X[c];  X.iloc[:, k] is X[:, k]
+                    return self.mk_idx(lu[1][0], t[1][1] if lu[0] == "attr:loc" else ix)
             u = app(base, "attr:shape")
             if u is not None and const_of(ix) == 0:
                 return self.mk_len(u[1][0])
@@ -1033,7 +1125,7 @@ class XEval(AutoEvaluator):
         elif d == "zip" and isinstance(target, (ast.Tuple, ast.List)) and len(target.elts) == len(itnode.args):
             vs = [self.ev(x) for x in itnode.args]
             itv = vs[0] if vs else None
-            dom = Unknown("iterable") if (not vs or is_unknown(vs[0])) else self.mk_len(vs[0])
+            dom = Unknown("iterable") if (not vs or any(is_unknown(v) for v in vs)) else self._zip_len(vs)
             for t, v in zip(target.elts, vs):
                 self._bind_target(t, v if is_unknown(v) else self.mk_idx(v, k))
         else:
@@ -1067,6 +1159,12 @@ class XEval(AutoEvaluator):
         if isinstance(node, ast.Name) and node.id not in self.buffers:
             v = untuple(self.env.get(node.id))
             return v if isinstance(v, tuple) else None
+        if isinstance(node, ast.Call) and not node.keywords and not node.args and isinstance(node.func, ast.Attribute) and node.func.attr in ("items", "keys", "values") \
+                and isinstance(node.func.value, ast.Name) and node.func.value.id in self.env and node.func.value.id not in self.buffers:
+            du = app(self.env[node.func.value.id], "dict") if not isinstance(self.env[node.func.value.id], tuple) else None
+            if du is not None and not any(isinstance(x, str) for x in du[1]):
+                ks, vs = [untuple(k) for k in du[1][0::2]], [untuple(v) for v in du[1][1::2]]
+                return tuple(zip(ks, vs)) if node.func.attr == "items" else tuple(ks if node.func.attr == "keys" else vs)
         if isinstance(node, ast.Call) and not node.keywords and dotted(node.func) in ("zip", "enumerate", "reversed", "list", "tuple") and node.args:
             parts = [self._literal_iter(a) for a in node.args]
             if any(p is None for p in parts):
@@ -1134,7 +1232,7 @@ class XEval(AutoEvaluator):
         try:
             for kv in keys:
                 self.env[g.target.id] = kv
-                parts += [wrap(self.ev(node.key)), wrap(self.ev(node.value))]
+                parts += [wrap(self.ev(node.key)), wrap(self._fresh_array(node.value) if self._is_alloc(node.value) else self.ev(node.value))]
         except Unsupported as e:
             return Unknown(str(e))
         finally:
@@ -1177,6 +1275,13 @@ class XEval(AutoEvaluator):
                 kws.append(k)
                 continue
             v = self.ev(k.value)
+            if k.arg is None:
+                du = app(v, "dict") if not is_unknown(v) and not isinstance(v, tuple) else None
+                keys = [str_parts(x) if not isinstance(x, str) else None for x in du[1][0::2]] if du is not None else [None]
+                if du is not None and all(sp is not None and len(sp) == 1 and isinstance(sp[0], str) and sp[0].isidentifier() for sp in keys):
+                    for sp, x in zip(keys, du[1][1::2]):
+                        kws.append(ast.keyword(arg=sp[0], value=self._tmpname(untuple(x))))       # f(**{"a": 1}) is f(a=1)
+                    continue
             try:
                 v = wrap(v) if isinstance(v, tuple) else v
             except Unsupported as e:
@@ -1220,7 +1325,44 @@ class XEval(AutoEvaluator):
             return elt if is_unknown(elt) else Unknown("map domain")
         return self._mk_comp(name, wrap(elt), need(dom))
 
+    def _resolve_callee(self, node):
+        """f = np.digitize; f(x, b)  /  lo = operator.le if right else operator.lt; lo(a, b)  /  f = partial(np.digitize, right=right); f(x, b):
+        the call with the callee (and the partial's arguments) spelled out; the node itself otherwise"""
+        if not isinstance(node.func, ast.Name) or node.func.id not in self.env or node.func.id in self.buffers:
+            return node
+        v = self.env[node.func.id]
+        if v is None or is_unknown(v) or isinstance(v, tuple):
+            return node
+        s = sym_of(v)
+        if s is not None and "." in s and not s.startswith("<") and all(p.isidentifier() for p in s.split(".")) and s.split(".")[0] not in self.env:
+            new = ast.Call(func=ast.parse(s, mode="eval").body, args=node.args, keywords=node.keywords)
+        else:
+            u = app(v)
+            if u is None or u[0] not in ("call:partial", "call:functools.partial") or not u[1] or isinstance(u[1][0], str):
+                return node
+            f = sym_of(u[1][0])
+            if f is None or f.startswith("<") or not all(p.isidentifier() for p in f.split(".")):
+                return node
+            pos, kws = [], []
+            for a in u[1][1:]:
+                if isinstance(a, str):
+                    return node
+                k = app(a)
+                if k is not None and k[0].startswith("kw:"):
+                    kws.append(ast.keyword(arg=k[0][3:], value=self._tmpname(untuple(k[1][0]))))
+                else:
+                    pos.append(self._tmpname(untuple(a)))
+            new = ast.Call(func=ast.parse(f, mode="eval").body, args=pos + list(node.args), keywords=kws + list(node.keywords))
+        for n in ast.walk(new.func):
+            ast.copy_location(n, node)
+        ast.copy_location(new, node)
+        for attr in ("_vparent", "_vmod"):
+            if hasattr(node, attr):
+                setattr(new, attr, getattr(node, attr))
+        return new
+
     def _call(self, node):
+        node = self._resolve_callee(node)
         if dotted(node.func) == "map" and len(node.args) >= 2 and not node.keywords and not any(isinstance(a, ast.Starred) for a in node.args):
             return self._map(node)
         cast = self._cast(node, dotted(node.func))
@@ -1242,6 +1384,86 @@ class XEval(AutoEvaluator):
             node = new
         d = dotted(node.func)
         nargs, kws = len(node.args), {k.arg for k in node.keywords}
+        # ---- function spellings of operators:  np.greater_equal(a, b) is a >= b,  np.subtract(a, b) is a - b,  np.multiply(a, b, out=a) is a *= b
+        if d in self.FUNC_CMP and nargs == 2 and not kws:
+            a, b = self.ev(node.args[0]), self.ev(node.args[1])
+            if is_unknown(a) or is_unknown(b):
+                return a if is_unknown(a) else b
+            try:
+                return F.fn("cmp:" + self.FUNC_CMP[d], wrap(a), wrap(b))
+            except Unsupported as e:
+                return Unknown(str(e))
+        if d in self.FUNC_ARITH and nargs == 2 and kws <= {"out"}:
+            a, b = self.ev(node.args[0]), self.ev(node.args[1])
+            if is_unknown(a) or is_unknown(b) or isinstance(a, tuple) or isinstance(b, tuple):
+                v = a if is_unknown(a) else (b if is_unknown(b) else _vec_binop(self.FUNC_ARITH[d](), a, b))
+            else:
+                try:
+                    v = _binop(self.FUNC_ARITH[d](), need(a), need(b))
+                except Unsupported as e:
+                    v = Unknown(str(e))
+            if "out" in kws:
+                self._store_out(next(k.value for k in node.keywords if k.arg == "out"), v, node)
+            return v
+        if d in ("np.negative", "operator.neg") and nargs == 1 and not kws:
+            v = self.ev(node.args[0])
+            return v if is_unknown(v) or isinstance(v, tuple) else -need(v)
+        if d in ("np.fabs",) and nargs == 1 and not kws:
+            v = self.ev(node.args[0])
+            return v if is_unknown(v) or isinstance(v, tuple) else F.fn("abs", need(v))
+        if d in ("np.logical_and", "np.logical_or", "np.bitwise_and", "np.bitwise_or") and nargs == 2 and not kws and not self.tr.dtypes:
+            a, b = self.ev(node.args[0]), self.ev(node.args[1])
+            if not (is_unknown(a) or is_unknown(b) or isinstance(a, tuple) or isinstance(b, tuple)):
+                x, y = (a, b) if repr(a) <= repr(b) else (b, a)
+                return F.fn("mask:BitAnd" if d.endswith("and") else "mask:BitOr", need(x), need(y))
+        if d in ("np.logical_not", "operator.not_") and nargs == 1 and not kws and not self.tr.dtypes:
+            v = self.ev(node.args[0])
+            if not is_unknown(v) and not isinstance(v, tuple):
+                return mk_not(v)
+        if "out" in kws:
+            # any other call that writes its result into an array of the caller
+            self._record_call(node)
+            inner = ast.Call(func=node.func, args=node.args, keywords=[k for k in node.keywords if k.arg != "out"])
+            ast.copy_location(inner, node)
+            v = self.ev(inner)
+            self._store_out(next(k.value for k in node.keywords if k.arg == "out"), v, node)
+            return v
+        if isinstance(node.func, ast.Attribute) and node.func.attr == "to_numpy" and not nargs and not kws:
+            return self.ev(node.func.value)                     # the array behind a Series / DataFrame
+        if isinstance(node.func, ast.Attribute) and node.func.attr == "join" and nargs == 1 and not kws:
+            sep, seq = str_parts(self.ev(node.func.value)), untuple(self.ev(node.args[0]))
+            if sep is not None and isinstance(seq, tuple) and seq and all(str_parts(x) is not None for x in seq if not isinstance(x, tuple)) \
+                    and not any(isinstance(x, tuple) for x in seq):
+                parts = []
+                for i, x in enumerate(seq):
+                    parts += (sep if i else []) + str_parts(x)
+                return mk_str(parts)                            # ", ".join((f, f))
+        if d in ("np.arange", "numpy.arange") and 1 <= nargs <= 3 and kws <= {"dtype"}:
+            # np.arange(0, n) / np.arange(0, n, 1) / np.arange(n, dtype=float) / np.arange(0.0, n): the integers 0 .. n-1 (as floats or not)
+            vs = [self.ev(a) for a in node.args]
+            if not any(is_unknown(v) or isinstance(v, tuple) for v in vs):
+                if len(vs) == 3 and const_of(vs[2]) == 1:
+                    vs = vs[:2]
+                if len(vs) == 2 and const_of(vs[0]) == 0:
+                    vs = vs[1:]
+                self._record_call(node)
+                return F.fn("call:np.arange", *[need(v) for v in vs])
+        if d == "np.where" and nargs == 3 and not kws:
+            c, a, b = (self.ev(x) for x in node.args)
+            if not (is_unknown(c) or isinstance(c, tuple) or is_unknown(a) or is_unknown(b) or isinstance(a, tuple) or isinstance(b, tuple)):
+                ta, tb = _boolconst(a), _boolconst(b)
+                if ta is True and tb is False:
+                    return c
+                if ta is False and tb is True:
+                    return mk_not(c)
+        if d == "np.append" and nargs == 2 and kws <= {"axis"}:
+            a, b = self.ev(node.args[0]), self.ev(node.args[1])
+            if not (is_unknown(a) or is_unknown(b) or isinstance(a, tuple) or isinstance(b, tuple)):
+                return F.fn("hcat", need(a), need(b))           # 1-D pieces, or column blocks with axis=1
+        if d == "np.insert" and nargs == 3 and not kws and const_of(self.ev(node.args[1])) == 0:
+            a, b = self.ev(node.args[0]), self.ev(node.args[2])
+            if not (is_unknown(a) or is_unknown(b) or isinstance(a, tuple) or isinstance(b, tuple)):
+                return F.fn("hcat", need(b), need(a))           # np.insert(x, 0, v): v in front of x
         # ---- table look-ups through locals()
         if d == "locals" and not nargs:
             return F.sym("<locals>")
@@ -1373,7 +1595,9 @@ class XEval(AutoEvaluator):
         # ---- x.max() / np.max(x) / max(x)
         m = None
         recv = None
-        if isinstance(node.func, ast.Attribute) and node.func.attr in METHODS:
+        if d in ("np.amax", "np.amin", "numpy.amax", "numpy.amin") and nargs >= 1:
+            m, recv, rest = d[-3:], node.args[0], node.args[1:]          # the older names of np.max / np.min
+        elif isinstance(node.func, ast.Attribute) and node.func.attr in METHODS:
             if d is not None and d.split(".")[0] in ("np", "numpy") and d.count(".") == 1:
                 if nargs >= 1:
                     m, recv, rest = node.func.attr, node.args[0], node.args[1:]
@@ -1403,6 +1627,31 @@ class XEval(AutoEvaluator):
         if not self.inline:
             self._unfollowed(node)
         return super()._call(node)
+
+    FUNC_CMP = {"np.greater": "Gt", "np.greater_equal": "GtE", "np.less": "Lt", "np.less_equal": "LtE", "np.equal": "Eq", "np.not_equal": "NotEq",
+                "operator.gt": "Gt", "operator.ge": "GtE", "operator.lt": "Lt", "operator.le": "LtE", "operator.eq": "Eq", "operator.ne": "NotEq"}
+    FUNC_ARITH = {"np.subtract": ast.Sub, "np.add": ast.Add, "np.multiply": ast.Mult, "np.divide": ast.Div, "np.true_divide": ast.Div,
+                  "operator.sub": ast.Sub, "operator.add": ast.Add, "operator.mul": ast.Mult, "operator.truediv": ast.Div}
+
+    def _store_out(self, target, v, node):
+        """f(..., out=X): the result is written into X - a store like `X[...] = f(...)` when X is (a view of) an array the evaluation tracks"""
+        cur = self.ev(target)
+        vw = self._view(cur) if not (cur is None or is_unknown(cur) or isinstance(cur, tuple)) else None
+        s = sym_of(cur) if vw is None else None
+        if vw is None and s is None:
+            self.tr.lost.append((f"out={ast.unparse(target)} of a call", node))
+            return
+        if vw is None:
+            root, ixv = s, F.fn("slice", NONE, NONE, NONE)
+        else:
+            root, ix = vw
+            ixv = ix[0] if len(ix) == 1 else F.fn("tuple", *ix)
+        self.tr.seq += 1
+        self.seq = self.tr.seq
+        self.cell_seq.append(self.tr.seq)
+        self.tr.cells.append((root, ixv, v, node))
+        self.tr.cellx.append(dict(guard=tuple(self.path), loops=self._loops(), seq=self.tr.seq, aug=False))
+        self.stores.append((root, repr(ixv), v, node))
 
     FLOAT_DTYPES = {"float", "np.float64", "np.double", "np.float_", "np.float32", "np.single", "np.longdouble", "numpy.float64", "numpy.float32",
                     "'float'", "'float64'", "'float32'", "'f8'", "'f4'", "'d'", "'f'", "'double'", "'<f8'", "'=f8'", "'<f4'"}
@@ -1465,6 +1714,8 @@ class XEval(AutoEvaluator):
         name = dotted(node.func)
         if isinstance(node.func, ast.Name) and node.func.id in self.env and (sym_of(self.env[node.func.id]) or "").startswith("<lambda:"):
             name = sym_of(self.env[node.func.id])                   # a local bound to a lambda (possibly chosen by a ternary the facts decide)
+        elif isinstance(node.func, ast.Name) and node.func.id in self.env and (sym_of(self.env[node.func.id]) or "").startswith("<func:"):
+            name = sym_of(self.env[node.func.id])[6:-1]             # a local bound to a function defined in the body
         elif name is None and isinstance(node.func, (ast.IfExp, ast.Lambda)):
             fv = self.ev(node.func)
             if (sym_of(fv) or "").startswith("<lambda:"):
@@ -1681,10 +1932,48 @@ class XEval(AutoEvaluator):
             self.inline = dict(self.inline or {})
             self.inline[st.name] = st
             self.closures.add(id(st))
+            self.env[st.name] = F.sym(f"<func:{st.name}>")          # the name is bound (it may be passed around: keep = inside if flag else always)
             return
         if isinstance(st, (ast.AsyncFunctionDef, ast.ClassDef)):
+            self.env[st.name] = F.sym(f"<def:{st.name}>")
+            return
+        if isinstance(st, ast.Import):
+            for a in st.names:
+                self.imported.add((a.asname or a.name).split(".")[0])
+                if a.asname and a.asname != a.name:
+                    self.env[a.asname] = F.sym(a.name)
+            return
+        if isinstance(st, ast.ImportFrom):
+            for a in st.names:
+                self.imported.add(a.asname or a.name)
+                self.env[a.asname or a.name] = F.sym(f"{st.module}.{a.name}" if st.module else a.name)
+            return
+        if isinstance(st, ast.Match):
+            return self._match(st)
+        if isinstance(st, (ast.Pass, ast.Assert, ast.Global, ast.Nonlocal, ast.Delete)):
+            return
+        if not isinstance(st, (ast.Assign, ast.AugAssign, ast.AnnAssign, ast.Expr)):
+            # a statement this evaluator does not execute (async for / with, type aliases, ...): what it binds is not known afterwards
+            for n in ast.walk(st):
+                if isinstance(n, ast.Name) and isinstance(n.ctx, ast.Store):
+                    self.env[n.id] = Unknown(f"bound inside a {type(st).__name__} statement")
+            self.tr.lost.append((f"a {type(st).__name__} statement is not executed", st))
             return
         if isinstance(st, ast.AugAssign) and isinstance(st.target, ast.Name) and self._inplace(st):
+            return
+        if isinstance(st, ast.Assign) and isinstance(st.value, (ast.List, ast.Tuple)) and len(st.value.elts) >= 2 and any(self._is_alloc(e) for e in st.value.elts) \
+                and not any(isinstance(e, ast.Starred) for e in st.value.elts):
+            # a, b = np.zeros(n), np.zeros(n)  /  arrays = [np.zeros(n), np.zeros(n)]: one array per allocation, whatever name reaches it later
+            v = tuple(self._fresh_array(e) if self._is_alloc(e) else self.ev(e) for e in st.value.elts)
+            for t in st.targets:
+                self._assign(t, v, st)
+            return
+        if isinstance(st, ast.Assign) and len(st.targets) > 1 and self._is_alloc(st.value) and all(isinstance(t, ast.Name) for t in st.targets):
+            # a = b = np.zeros(n): two names, one array
+            self._assign(st.targets[0], self.ev(st.value), st)
+            first = self.env.get(st.targets[0].id)
+            for t in st.targets[1:]:
+                self.env[t.id] = first
             return
         if isinstance(st, ast.Assign) and len(st.targets) == 1 and isinstance(st.targets[0], ast.Name) and st.targets[0].id not in self.buffers \
                 and ((isinstance(st.value, ast.List) and not st.value.elts)
@@ -1696,6 +1985,57 @@ class XEval(AutoEvaluator):
                 and isinstance(st.value.func.value, ast.Name) and st.value.func.value.id in self.lists and len(st.value.args) == 1 and not st.value.keywords:
             return self._append(st.value.func.value.id, st.value.args[0])
         return super().stmt(st)
+
+    def _match(self, st):
+        """match subject: case <literal> | <literal>: ... case _: ...   is the chain  if subject == literal or ...: ... else: ..."""
+        subj = self._tmpname(self.ev(st.subject))
+
+        def test(p):
+            if isinstance(p, ast.MatchValue):
+                return ast.Compare(left=subj, ops=[ast.Eq()], comparators=[p.value])
+            if isinstance(p, ast.MatchSingleton):
+                return ast.Compare(left=subj, ops=[ast.Is()], comparators=[ast.Constant(value=p.value)])
+            if isinstance(p, ast.MatchOr):
+                ts = [test(q) for q in p.patterns]
+                return None if any(t is None for t in ts) else ast.BoolOp(op=ast.Or(), values=ts)
+            return None
+
+        chain = None
+        tail = None
+        for case in st.cases:
+            p = case.pattern
+            wild = isinstance(p, ast.MatchAs) and p.pattern is None
+            t = None if wild else test(p)
+            if (t is None and not wild) or (wild and case.guard is not None and p.name is not None):
+                for n in ast.walk(st):
+                    if isinstance(n, ast.Name) and isinstance(n.ctx, ast.Store):
+                        self.env[n.id] = Unknown("bound inside a match statement with structural patterns")
+                self.tr.lost.append(("a match statement with structural patterns is not executed", st))
+                return
+            body = list(case.body)
+            if wild and p.name is not None:
+                body = [ast.Assign(targets=[ast.Name(id=p.name, ctx=ast.Store())], value=subj)] + body
+            if case.guard is not None:
+                t = case.guard if t is None else ast.BoolOp(op=ast.And(), values=[t, case.guard])
+            if t is None:
+                node = body          # irrefutable: the else arm
+                if tail is None:
+                    chain = body
+                else:
+                    tail.orelse = body
+                tail = False
+                break
+            node = ast.If(test=t, body=body, orelse=[])
+            if tail is None:
+                chain = [node]
+            else:
+                tail.orelse = [node]
+            tail = node
+        for top in (chain or []):
+            for n in ast.walk(top):
+                if not hasattr(n, "lineno") and isinstance(n, (ast.stmt, ast.expr)):
+                    ast.copy_location(n, st)
+        self._run_keep(chain or [])
 
     def _lambda(self, lam, name):
         """a lambda is a helper without a name: registered in the inline table under a private name (its value is the symbol of that name)"""
@@ -1934,7 +2274,40 @@ class XEval(AutoEvaluator):
         if not self.done:
             self.run(st.orelse)
 
+    def _counted(self, st):
+        """`i = a` ... `while i < n: <body>; i += 1` (the increment last, no other binding of i, no break / continue): the loop
+        `for i in range(a, n)`; returns that For statement or None"""
+        t = st.test
+        if st.orelse or not (isinstance(t, ast.Compare) and len(t.ops) == 1 and isinstance(t.ops[0], ast.Lt) and isinstance(t.left, ast.Name)):
+            return None
+        ctr = t.left.id
+        if not st.body or any(isinstance(n, (ast.Break, ast.Continue)) for n in ast.walk(st)):
+            return None
+        last = st.body[-1]
+        if not (isinstance(last, ast.AugAssign) and isinstance(last.target, ast.Name) and last.target.id == ctr and isinstance(last.op, ast.Add)
+                and isinstance(last.value, ast.Constant) and last.value.value == 1):
+            return None
+        for n in st.body[:-1]:
+            for x in ast.walk(n):
+                if isinstance(x, ast.Name) and x.id == ctr and isinstance(x.ctx, ast.Store):
+                    return None
+        if any(isinstance(x, ast.Name) and x.id == ctr for x in ast.walk(t.comparators[0])):
+            return None
+        cur = self.env.get(ctr)
+        if cur is None or is_unknown(cur) or isinstance(cur, tuple):
+            return None
+        start = self._tmpname(cur)
+        args = [t.comparators[0]] if const_of(cur) == 0 else [start, t.comparators[0]]
+        rng = ast.Call(func=ast.Name(id="range", ctx=ast.Load()), args=args, keywords=[])
+        loop = ast.For(target=ast.Name(id=ctr, ctx=ast.Store()), iter=rng, body=st.body[:-1] or [ast.Pass()], orelse=[], type_comment=None)
+        for n in (rng, loop, loop.target, rng.func):
+            ast.copy_location(n, st)
+        return loop
+
     def _while(self, st):
+        loop = self._counted(st)
+        if loop is not None:
+            return self._for(loop)
         self._carried(st.body)
         tv = self.ev(st.test)
         self.tr.tests.append((tv, st.test, tuple(self.path), "while"))
@@ -2308,6 +2681,11 @@ class Degrees:
                 self.problems.append(("np.interp: the abscissa and the table abscissae have different degree", F.Rat(F.Poly.atom(a))))
                 return None
             return fp
+        if name == "call:np.einsum" and len(args) >= 2 and strs[0] is None and str_parts(args[0]) is not None and all(a is not None for a in args[1:]):
+            ds = [self.of(x) for x in args[1:]]            # a sum of products with one factor from each operand
+            if any(x is None for x in ds):
+                return None
+            return ANY if any(x is ANY for x in ds) else sum(ds, Fraction(0))
         if name in self.LINEAR and self.LINEAR[name] is not None:
             return self.of(args[self.LINEAR[name]]) if args and args[self.LINEAR[name]] is not None else None
         if name.startswith("call:") and name[5:].isidentifier():
